@@ -265,12 +265,15 @@ class Kernel:
         self.preempts = 0
         self.last: Optional[SimThread] = None
         self.drain_deadline: Optional[int] = None
+        self.hot_lines: set = set()
+        self.hot_rate = 0.0
+        self.freeze_p = 0.0
 
     def count(self, key: str, n: int = 1):
         self.counts[key] = self.counts.get(key, 0) + n
 
     def begin_run(self, fair_k: int = 64, line_rate: float = 0.0, line_seed: int = 0, fault_seed: int = 0,
-                  replay: Optional[dict] = None):
+                  replay: Optional[dict] = None, hot_rate: float = 0.0):
         if self.active:
             raise HarnessError("begin_run while a run is active")
         if self.threads:
@@ -279,6 +282,8 @@ class Kernel:
         self.active = True
         self.fair_k = fair_k
         self.line_rate = line_rate
+        self.hot_rate = hot_rate
+        self.hot_lines = hot_lines() if hot_rate > 0.0 else set()
         self.line_rng = random.Random(line_seed)
         self.fault_rng = random.Random(fault_seed)
         if replay is not None:
@@ -290,7 +295,7 @@ class Kernel:
         self.by_ident[threading.get_ident()] = u
         self.last = u
         self.set_strategy({"name": "rr"}, 0)
-        if self.line_rate > 0:
+        if self.line_rate > 0 or self.hot_rate > 0:
             sys.settrace(_global_tracer)
 
     def set_strategy(self, spec: dict, seed: int):
@@ -410,7 +415,8 @@ class Kernel:
                     raise ReplayDiverged(f"choice {self.nchoice}: index {i} out of {len(runnable)}")
                 chosen = runnable[i]
             else:
-                cands = self.strategy.eligible(runnable)
+                thawed = [t for t in runnable if t.frozen_until <= self.ndec]
+                cands = self.strategy.eligible(thawed if thawed else runnable)
                 starving = [t for t in cands if t.passed >= self.fair_k]
                 if starving:
                     chosen = max(starving, key=lambda t: t.passed)
@@ -528,11 +534,19 @@ class Kernel:
             self.now += 1e-6
         return self.now
 
-    def line_hook(self):
-        if self.line_rate > 0.0 and self.active and not self.aborting and self.line_rng.random() < self.line_rate:
+    def line_hook(self, lineno: int = -1):
+        rate = self.hot_rate if (self.hot_rate > 0.0 and lineno in self.hot_lines) else self.line_rate
+        if rate > 0.0 and self.active and not self.aborting and self.line_rng.random() < rate:
             me = self.cur()
             if me is not None:
-                self.count("line_preempt")
+                if lineno in self.hot_lines:
+                    self.count("hot_line_preempt")
+                    if self.freeze_p > 0.0 and self.line_rng.random() < self.freeze_p:
+                        # the pre-empted thread stays descheduled for a while (a real OS pause inside a check-then-act window)
+                        me.frozen_until = self.ndec + self.line_rng.randrange(20, 400)
+                        self.count("hot_freeze")
+                else:
+                    self.count("line_preempt")
                 me.state = RUNNABLE
                 self.switch(me)
 
@@ -547,11 +561,32 @@ def _describe(o) -> str:
 K = Kernel()
 
 _REX_ASYNC_SUFFIX = "rex/asynchronous.py"
+# Shared, unsynchronised fields of the threaded runtime (the `state` anchors of properties C02/C05): lines that read or write them are
+# where check-then-act windows open, so pre-emption is concentrated there ("hot lines"). Computed from the current source at run time.
+_HOT_PATTERNS = ("_must_reset", "._state", "_q_act", "_q_obs", ".action", ".observation", "_initial_step", "_f_act", "_f_obs", "_step_state", "_eps", "_tick")
+_hot_cache: dict = {}
+
+
+def hot_lines() -> set:
+    import rex.asynchronous as ra
+
+    path = ra.__file__
+    if path not in _hot_cache:
+        hs = set()
+        try:
+            for i, line in enumerate(open(path).read().splitlines(), start=1):
+                code = line.split("#", 1)[0]
+                if any(p in code for p in _HOT_PATTERNS):
+                    hs.add(i)
+        except OSError:
+            pass
+        _hot_cache[path] = hs
+    return _hot_cache[path]
 
 
 def _local_tracer(frame, event, arg):
     if event == "line":
-        K.line_hook()
+        K.line_hook(frame.f_lineno)
     return _local_tracer
 
 
@@ -741,7 +776,7 @@ class SimExecutor:
     def _main(self):
         K.by_ident[threading.get_ident()] = self.t
         self.t.gate.acquire()  # wait until first chosen
-        if K.line_rate > 0:
+        if K.line_rate > 0 or K.hot_rate > 0:
             sys.settrace(_global_tracer)
         try:
             while True:
